@@ -544,6 +544,12 @@ def oracle_c18(ctx):
                     res.violation('body round trip', {'fn': 'c18_body_case', 'args': pyrepr((content, ch, junk))} if n <= 4096 else
                                   {'fn': 'c18_body_case', 'args': '(%r * %d, %d, %r)' % (content[:1], n, ch, junk)},
                                   'round trip', bad if k == 'ok' else repr(bad))
+    for notbytes in [5, 1, True, 131072, [1, 2, 3], (1, 2), range(3), {1: 2}, 'abc', 1.5]:
+        res.case('body of type %s' % type(notbytes).__name__, tag='body that is not byte content')
+        k, bad = catching(c10_frame_case, 'body', notbytes, 1)
+        if k != 'ok' or bad:
+            res.violation('ContentBody(%r) is sent as something else' % (notbytes,), {'fn': 'c10_frame_case', 'args': pyrepr(('body', notbytes, 1))},
+                          bad[0] if k == 'ok' else 'oracle runs', bad[1] if k == 'ok' else repr(bad))
     # byte content handed over as zero-copy code does: a memoryview, whole or a slice of a larger buffer
     for data in [b'a', b'abcdef', b'\xce' * 9, bytes(range(256)) * 20, b'x' * 8192]:
         for start, stop in [(0, None), (1, None), (0, -1), (2, 4), (1, 2), (0, 4096), (4096, None)]:
@@ -1672,6 +1678,12 @@ def oracle_c10(ctx):
             if k != 'ok' or bad:
                 res.violation('body frame', {'fn': 'c10_frame_case', 'args': pyrepr(('body', content, ch_))},
                               bad[0] if k == 'ok' else 'oracle runs', bad[1] if k == 'ok' else repr(bad))
+    for notbytes in [5, 0, 1, True, False, 131072, [1, 2, 3], (1, 2), range(3), {1: 2}, 'abc', '', None, 1.5, [b'a'], frozenset([1]), D(3), object]:
+        res.case('body of type %s' % type(notbytes).__name__, tag='body that is not byte content')
+        k, bad = catching(c10_frame_case, 'body', notbytes, 1)
+        if k != 'ok' or bad:
+            res.violation('ContentBody(%r) is sent as something else' % (notbytes,), {'fn': 'c10_frame_case', 'args': pyrepr(('body', notbytes, 1)) if not isinstance(notbytes, type) else "('body', object, 1)"},
+                          bad[0] if k == 'ok' else 'oracle runs', bad[1] if k == 'ok' else repr(bad))
     for data in [b'', b'a', b'abcdef', b'\xce' * 9, bytes(range(256)) * 20]:
         for start, stop in [(0, None), (0, 0), (1, None), (0, -1), (2, 4), (1, 2), (len(data), None)]:
             for mutable in (False, True):
@@ -3110,7 +3122,8 @@ def oracle_c17(ctx):
                       [k for k in exceptions.CLASS_MAPPING if exceptions.CLASS_MAPPING.get(k) is not before.get(k)])
     # the classes as an application uses them: built from a close frame's reply text, raised, caught by their bases
     texts = [(), ('boom',), ("NOT_FOUND - no queue 'q' in vhost '/'",), ('ACCESS_REFUSED - operation not permitted',), ('PRECONDITION_FAILED - x',),
-             ('CHANNEL_ERROR - second channel.open seen',), ('INTERNAL_ERROR',), ('NOT-FOUND - x',), (404, 'NOT_FOUND - x'), ('a', 'b', 'c'), ('',), (None,), ({'a': 1},)]
+             ('CHANNEL_ERROR - second channel.open seen',), ('INTERNAL_ERROR',), ('x' * 256,), ('\u00e9' * 128,), ('x' * 100000,),
+             ('PRECONDITION_FAILED - inequivalent arg \'x-message-ttl\' for queue \'' + 'q' * 200 + '\' in vhost \'/\': received the value \'60000\' of type \'long\' but current is none',), ('NOT-FOUND - x',), (404, 'NOT_FOUND - x'), ('a', 'b', 'c'), ('',), (None,), ({'a': 1},)]
     for code, (nm, kind) in S.REPLY.items():
         texts_ = texts + [('%s - text' % nm.replace('-', '_'),), ('%s - text' % nm,), (nm,)]
         for args_ in texts_:
@@ -3358,8 +3371,14 @@ for secs, micro, kind, offmin in cases:
         if via_props:
             # the same value as the timestamp PROPERTY of a message: constructor (which validates), content header, wire
             from pamqp import commands, header, frame
-            fb = frame.marshal(header.ContentHeader(0, 1, commands.Basic.Properties(timestamp=v)), 1)
-            b = fb[7 + 14:7 + 22]
+            ms_ = secs * 1000 + 123
+            hd_ = {'timestamp_in_ms': ms_, 'timestamp': secs, 'x-timestamp': secs, 'x-timestamp-ms': ms_, 'x-opt-enqueued-time': ms_,
+                   'time': datetime.datetime(1970, 1, 1, tzinfo=UTC) + datetime.timedelta(seconds=secs), 'x-death': [{'time': datetime.datetime(1970, 1, 1, tzinfo=UTC) + datetime.timedelta(seconds=secs)}]}
+            fb0 = frame.marshal(header.ContentHeader(0, 1, commands.Basic.Properties(timestamp=v)), 1)
+            fb = frame.marshal(header.ContentHeader(0, 1, commands.Basic.Properties(timestamp=v, headers=hd_)), 1)
+            b = fb0[7 + 14:7 + 22]
+            if fb[-9:-1] != b:
+                raise AssertionError('the timestamp property encodes differently next to a headers table')
             got = frame.unmarshal(fb)[2].properties.timestamp
             if decode.timestamp(b)[1] != got:
                 raise AssertionError('property decodes differently from its 8 bytes')
